@@ -27,6 +27,78 @@ def corpus(tier):
     return fams
 
 
+def documents(tier):
+    """definitions whose help texts, group headers and descriptions exercise the renderer (styled fragments, code
+    blocks - indented, nested, fenced -, line breaks, non-ASCII and long first lines) and lines that make every build
+    render them: help (short and full) at every level, an ordinary parse, errors quoting hostile words.  No
+    specification run is needed for these: the outcome of one build is the oracle for the others (C12/C13/C16
+    decide the content)."""
+    from checks.c16 import pe
+    import random
+    rnd = random.Random(SEED + 2000)
+    texts = ["plain words only", "first line\nsame paragraph\n continued after a hard break",
+             "intro\n\n    code line\n        nested deeper\n    back\n\nafter the block",
+             "intro\n\n```text\nfenced a\n  fenced b\n```\n\nafter the fence", "é\nmore é words",
+             "ééé x\n\nsecond ñ paragraph with words", "é" * 30 + " long first line", "x" * 44 + "é" * 6 + " tail\nnext",
+             "tab\there", "a  double  blank", "trailing blank \n\n    code"]
+    defs, cases = [], []
+    n = 12 if tier == "quick" else 60
+    for i in range(n):
+        def styled(it, key="help"):
+            t = rnd.choice(texts)
+            it[key] = pe(t)
+            starts = [k for k in range(1, len(t)) if t[k - 1] in " \n" and t[k] not in " \n"] + list(range(1, min(len(t), 4)))
+            if rnd.random() < 0.7:
+                it["help_cuts" if key == "help" else "gh_cuts"] = sorted(set(rnd.sample(starts, min(len(starts), rnd.randint(1, 3)))))
+        a = D.sw("f0", "-a", "--alpha")
+        b = D.ar("a0", "opt", "str", "--name", "-n")
+        c = D.rf("r0", "count", "-c")
+        for it in (a, b, c):
+            styled(it)
+        if i % 2 == 0:
+            styled(a, "group_help")
+        g = D.altf("g0", "opt", D.branch(D.rf("x0", "one", "--xx")), D.branch(D.rf("y0", "one", "--yy"), D.sw("y1", "--zz")))
+        for l in D.field_leaves(g):
+            styled(l)
+        if i % 3 == 0:
+            styled(g, "group_help")
+        p = D.pos("p0", "opt")
+        styled(p)
+        sub = D.level([c], D.postail(p))
+        cm = D.cmd(["run"], sub)
+        styled(cm)
+        lvl = D.level([a, b, g], D.cmdtail([cm], optional=True), version=(i % 4 == 0))
+        for key in ("descr", "header", "footer"):
+            if rnd.random() < 0.6:
+                lvl[key] = pe(rnd.choice(texts))
+        d = D.mkdef(f"doc{i}", lvl, maxlen=1)
+        defs.append(d)
+        hostile = ["oops:%0A      indented", "%C3%A9%0A  x", "--n%C3%A4m", "-%C3%A9", "--alpha=1", "w w"]
+        for argv in (["--help"], ["--help", "--help"], ["-h"], ["run", "--help"], ["run", "-h"], [], ["-a"], ["--name", "x", "-a", "--xx"],
+                     ["run", "-c", "p"], ["--version"], ["--nme", "x"], ["--yy", "--xx"], ["run", "--alpha"]):
+            cases.append({"def": d["id"], "argv": argv})
+        for h in hostile:
+            cases.append({"def": d["id"], "argv": [h]})
+            cases.append({"def": d["id"], "argv": ["run", "p", h]})
+    # a header / help text whose first fragment holds the line break, followed by further styled fragments
+    for j, (t, cuts) in enumerate([("é\nmore x", [7]), ("ééé x\n\np second ñ", [9, 10]), ("first\nsecond third fourth", [13, 19])]):
+        a = D.sw("f0", "-a", "--alpha", help=pe(t))
+        a["help_cuts"] = cuts
+        a["group_help"] = pe(t)
+        a["gh_cuts"] = cuts
+        sub = D.level([D.sw("s0", "-s")], D.NOTAIL)
+        if j == 2:
+            sub["descr"] = pe(t)
+            sub["descr_cuts"] = cuts
+        cm = D.cmd(["run"], sub)
+        cm["help"] = ""
+        d = D.mkdef(f"docfl{j}", D.level([a], D.cmdtail([cm], optional=True)), maxlen=1)
+        defs.append(d)
+        for argv in (["--help"], ["-h"], [], ["-a"], ["run"], ["run", "-h"], ["--alph"]):
+            cases.append({"def": d["id"], "argv": argv})
+    return defs, cases
+
+
 def run(v):
     ensure_dirs()
     total_cases = 0
@@ -77,7 +149,42 @@ def run(v):
                                  {"def": r["def"], "argv_bytes": r["argv_bytes"], "line": r.get("line"), "build": fs,
                                   "expect": ref[key][0], "got": g})
             os.remove(dump)
-    cov = {"programs": programs, "disagreements_checked": disagreements, "samples": samples,
+    # documents: rendered texts compared across the builds
+    ddefs, dcases = documents(v.tier)
+    dpath = os.path.join(WORK, f"C20-{v.tier}-doc-defs.ndjson")
+    D.write_ndjson(dpath, ddefs)
+    cpath = os.path.join(WORK, f"C20-{v.tier}-doc-cases.ndjson")
+    with open(cpath, "w") as w:
+        for c in dcases:
+            w.write(json.dumps(c) + "\n")
+    ref = None
+    doc_cases = 0
+    for fs in SETS:
+        hbin = build_harness(fs)
+        dump = os.path.join(WORK, f"C20-{v.tier}-doc-{fs}-obs.ndjson")
+        run_replay(hbin, dpath, cpath, os.path.join(WORK, f"C20-{v.tier}-doc-{fs}-mm.ndjson"), dump=dump)
+        obs = {(r["def"], json.dumps(r["argv_bytes"])): (r["got"], r) for r in read_ndjson(dump)}
+        os.remove(dump)
+        for m in read_ndjson(os.path.join(WORK, f"C20-{v.tier}-doc-{fs}-mm.ndjson")):
+            if "build_panic" in m:
+                v.report({"rule": "panic_while_building_the_parser", "build": fs, "where": m["build_panic"][:60]},
+                         {"def": m["case"]["def"], "argv_bytes": m["case"]["argv"], "build": fs, "got": {"class": "panic", "text": m["build_panic"]}})
+        for key, (g, r) in obs.items():
+            if g["class"] == "panic":
+                v.report({"rule": "panic_while_rendering_or_parsing", "build": fs, "where": (g.get("text") or "")[:60]},
+                         {"def": r["def"], "argv_bytes": r["argv_bytes"], "build": fs, "got": g})
+        if ref is None:
+            ref, ref_fs = obs, fs
+            doc_cases = len(obs)
+        else:
+            for key, (g, r) in obs.items():
+                disagreements += 1
+                if g != ref[key][0] and "panic" not in (g["class"], ref[key][0]["class"]):
+                    v.report({"rule": "feature_set_changes_rendered_text", "build": fs, "ref_class": ref[key][0]["class"], "class": g["class"]},
+                             {"def": r["def"], "argv_bytes": r["argv_bytes"], "build": fs, "expect": ref[key][0], "got": g})
+    programs += len(ddefs)
+    total_cases += doc_cases
+    cov = {"programs": programs, "disagreements_checked": disagreements, "samples": samples, "document_cases": doc_cases,
            "evaluations": total_cases * len(SETS), "distinct_nontrivial": total_cases, "states": states,
            "feature_sets": {k: FEATURE_SETS[k] for k in SETS},
            "rule": "every specification-generated case (CmdLine and GroupLine replay sets) run by six builds of the harness; "
